@@ -22,7 +22,13 @@ _tls = threading.local()
 
 TIMEOUT = 'TIMEOUT'          # value returned by point() when the deadline won
 PY_POINTS = ('task', 'line', 'start', 'in-cs')   # points inside Python code
-WATCHDOG_S = 60.0            # real seconds a vthread may run between points
+import os as _os
+# real seconds a vthread may run between two points (manual stepping) /
+# a whole automatic run may take; only there to turn a real hang of the
+# machinery into an error -- generous, because a loaded machine must never
+# make a check fail
+WATCHDOG_S = float(_os.environ.get('VMC_WATCHDOG_S', '120'))
+WATCHDOG_RUN_S = 15 * WATCHDOG_S
 
 
 class ProcessKilled(BaseException):
@@ -305,9 +311,10 @@ class Scheduler:
         return self.choices.next(n, costs, label)
 
     def _wait_ctl(self, what):
-        if not self._ctl.acquire(timeout=WATCHDOG_S):
+        limit = WATCHDOG_RUN_S if what == 'run' else WATCHDOG_S
+        if not self._ctl.acquire(timeout=limit):
             raise HarnessError('watchdog: no scheduling point reached within '
-                               '%ss (%s): %r' % (WATCHDOG_S, what,
+                               '%ss (%s): %r' % (limit, what,
                                                  self.describe()))
         if self.error is not None:
             err, self.error = self.error, None
